@@ -112,7 +112,7 @@ Q q_subspan_st()
     if (ci != LEN + 1) vf_witness("explicit Count"); SUBVIEW_IS(d, *n, off, ci == LEN + 1 ? LEN - off : ci, "subspan<Offset,Count>()");
     vf_assert(*x == (ci != LEN + 1 ? ci : STATIC_EXT ? LEN - off : DYN), "subspan<Offset,Count>() static extent as [span.sub]");
 }
-#if !STATIC_EXT || defined(C19_AS_BYTES_STATIC_FIXED)
+#if 1   // (static-extent as_bytes compiles since d8762ce)
 Q q_bytes()
 {
     ELT* p = sym(); sz* n = cell(); sz* x = cell();
